@@ -110,20 +110,8 @@ Fixpoint params_static (e : expr) : bool :=
   | _ => true
   end.
 
-(* Premise of completeness (known finding: the checker refuses a comparison whose two sides
-   are the same keyword): no comparison of key with key or value with value. *)
-Definition same_field (l r : expr) : bool :=
-  match l, r with
-  | EField _ KeyKW, EField _ KeyKW | EField _ ValueKW, EField _ ValueKW => true
-  | _, _ => false
-  end.
-
-Definition is_compare_op (o : op) : bool :=
-  match o with
-  | OEq | ONotEq | OPrefixMatch | ORegExpMatch | OGt | OGte | OLt | OLte => true
-  | _ => false
-  end.
-
+(* no comparison of key with key or value with value anywhere (implied by typing: see
+   SelectProofs.infer_no_same_field) *)
 Fixpoint no_same_field (e : expr) : bool :=
   match e with
   | EBin _ o l r => negb (is_compare_op o && same_field l r) && no_same_field l && no_same_field r
@@ -508,6 +496,15 @@ Lemma infer_in_name_eq : forall p l q s,
   end.
 Proof. reflexivity. Qed.
 
+Lemma infer_bin_eq : forall p o l r, o <> OIn -> o <> OBetween ->
+  infer fo E m (EBin p o l r) =
+  if is_compare_op o && same_field l r then None
+  else match infer fo E m l, infer fo E m r with
+       | Some tl, Some tr => bin_type fo o tl tr r
+       | _, _ => None
+       end.
+Proof. intros. destruct o; try congruence; reflexivity. Qed.
+
 Lemma calls_placed_bin : forall a p o l r,
   calls_placed a (EBin p o l r) = calls_placed a l && calls_placed a r.
 Proof. reflexivity. Qed.
@@ -720,7 +717,14 @@ Proof.
     assert (HnBt : o <> OBetween) by (intros ->; discriminate EoBt).
     pose proof (bin_sound p o (rw l1) (rw r1) e0_2 Hhr HnIn HnBt Hop') as Hb.
     cbn [calls_placed]. rewrite Hpll, Hprr. split; [|reflexivity].
-    destruct o; try congruence; cbn [infer]; rewrite Hil, Hir; exact Hb.
+    rewrite infer_bin_eq by assumption.
+    assert (Hsame : is_compare_op o && same_field e0_1 e0_2 = false).
+    { destruct (is_compare_op o) eqn:Eco; [|reflexivity]. cbn [andb].
+      rewrite <- (same_field_head _ _ _ _ (check_head _ _ Hl1) Hhr).
+      assert (Hcc : check_compares true p o (rw l1) (rw r1) = Ok tt)
+        by (destruct o; try discriminate Eco; exact Hop').
+      apply check_compares_spec in Hcc; [|exact Eco]. exact (proj1 Hcc). }
+    rewrite Hsame, Hil, Hir. exact Hb.
   - (* EField *)
     split; [|exact I]. intros _ e1 a Hc _ _. cbn [Checker.check] in Hc.
     destruct f; cbn [infer mode_of m_key m_value].
@@ -859,14 +863,6 @@ Lemma check_bin_eq : forall p o l r,
    do _ <- op_check p o (rw l1) (rw r1); Ok (EBin p o (rw l1) (rw r1))).
 Proof. intros. destruct o; reflexivity. Qed.
 
-Lemma infer_bin_eq : forall p o l r, o <> OIn -> o <> OBetween ->
-  infer fo E m (EBin p o l r) =
-  match infer fo E m l, infer fo E m r with
-  | Some tl, Some tr => bin_type fo o tl tr r
-  | _, _ => None
-  end.
-Proof. intros. destruct o; try congruence; reflexivity. Qed.
-
 Lemma homogeneous_items : forall t0 items2,
   forallb (sty_eqb (sty_of t0)) (map (fun x => sty_of (rtype x)) items2) = true ->
   Forall (fun x => rtype x = t0) items2.
@@ -992,6 +988,7 @@ Proof.
     assert (HnIn : o <> OIn) by (intros ->; discriminate EoIn).
     assert (HnBt : o <> OBetween) by (intros ->; discriminate EoBt).
     rewrite infer_bin_eq in Hi by assumption.
+    destruct (is_compare_op o && same_field e0_1 e0_2) eqn:Esame; [discriminate Hi|].
     destruct (infer fo E m e0_1) as [tl|] eqn:Il; [|discriminate].
     destruct (infer fo E m e0_2) as [tr|] eqn:Ir; [|discriminate].
     destruct (IHl tl a Il Hpl Hsl) as [l1 [Hl1 [Hcl [Htl Hpsl]]]].
@@ -999,8 +996,7 @@ Proof.
     subst tl tr.
     pose proof (check_head _ _ Hl1) as Hhl. pose proof (check_head _ _ Hr1) as Hhr.
     assert (Hsf' : is_compare_op o = true -> same_field (rw l1) (rw r1) = false).
-    { intros Hco. rewrite (same_field_head _ _ _ _ Hhl Hhr). rewrite Hco in Hsf. cbn in Hsf.
-      destruct (same_field e0_1 e0_2); [discriminate | reflexivity]. }
+    { intros Hco. rewrite (same_field_head _ _ _ _ Hhl Hhr). rewrite Hco in Esame. exact Esame. }
     destruct (bin_complete p o (rw l1) (rw r1) e0_2 t Hhr HnIn HnBt Hsf' Hi) as [Hop Ht].
     exists (EBin p o (rw l1) (rw r1)). rewrite Hl1, Hr1. cbn [bind]. rewrite Hop. cbn [bind rewrite_name].
     cbn [check_calls params_static]. rewrite Hcl, Hcr, Hpsl, Hpsr. subst t. repeat split; reflexivity.
